@@ -497,6 +497,9 @@ func (d *Data) storeBlocks(ctx *datastore.VersionedCtx, r io.ReadCloser, scale u
 		if err != nil {
 			return err
 		}
+		if bsize, ok := d.BlockSize().(dvid.Point3d); !ok || !block.Size.Equals(bsize) {
+			return fmt.Errorf("received block (%d, %d, %d) of size %s but instance %q has block size %s", bx, by, bz, block.Size, d.DataName(), d.BlockSize())
+		}
 		bcoord := dvid.ChunkPoint3d{bx, by, bz}.ToIZYXString()
 		tk := NewBlockTKeyByCoord(scale, bcoord)
 		if scale == 0 {
@@ -570,12 +573,15 @@ func (d *Data) ingestBlocks(ctx *datastore.VersionedCtx, r io.ReadCloser, scale 
 
 	var numBlocks int
 	for {
-		_, compressed, bx, by, bz, err := readStreamedBlock(r, scale)
+		block, compressed, bx, by, bz, err := readStreamedBlock(r, scale)
 		if err == io.EOF {
 			break
 		}
 		if err != nil {
 			return err
+		}
+		if bsize, ok := d.BlockSize().(dvid.Point3d); !ok || !block.Size.Equals(bsize) {
+			return fmt.Errorf("received block (%d, %d, %d) of size %s but instance %q has block size %s", bx, by, bz, block.Size, d.DataName(), d.BlockSize())
 		}
 		bcoord := dvid.ChunkPoint3d{bx, by, bz}.ToIZYXString()
 		tk := NewBlockTKeyByCoord(scale, bcoord)
